@@ -2398,12 +2398,20 @@ class Polynom(Obj):
         if target is None:
             target = self.term.target
 
-        expanded = Add(*[
-            t.expand_intermediates(target, return_sympy=True,
-                                   fully_expand=fully_expand)
-            for t in self.terms
-        ])
-        expanded = Pow(expanded, self.exponent)
+        def expand_base():
+            return Add(*[
+                t.expand_intermediates(target, return_sympy=True,
+                                       fully_expand=fully_expand)
+                for t in self.terms
+            ])
+
+        exponent = sympify(self.exponent)
+        if exponent.is_Integer and exponent > 1:
+            # expand each factor separately: the contracted indices of the
+            # expanded intermediates must not be shared between the factors
+            expanded = Mul(*(expand_base() for _ in range(int(exponent))))
+        else:
+            expanded = Pow(expand_base(), exponent)
         if return_sympy:
             return expanded
         else:
